@@ -174,6 +174,23 @@ CHECKS = {
         note="Trusted: TLC, the registry digest (canonical dump), file digests. *.log and *.json debugging files "
              "are not compared. A differing registry digest alone is reported as a suspect, never as a violation.",
     ),
+    "C16": dict(
+        level="model_checking",
+        design="DESIGN.md section 4 / C16",
+        technique="TLA+ spec Lockstep (self-composition: two runs walked in lock step over comment-free token "
+                  "chunks) model-checked with TLC; pairs of real runs differing only in debug / doxygen / "
+                  "show_splicer_comments / version stamp / per-declaration literalinclude lexed and walked by TLC "
+                  "(Trace_Lockstep)",
+        text="TLC shows on all pairs of tiny runs that the lock-step walk accepts exactly equal pairs. Conformance: a "
+             "generated library with cpp_if overloads, doxygen blocks, default arguments, a class, a namespace and "
+             "splicer code, and corpus libraries (4 in quick, all in thorough) are generated with a baseline and with "
+             "the 15 other global combinations of the four options and with each option (and literalinclude) placed "
+             "on single declarations, classes and namespaces; every output file (C, C++, Fortran, Python-extension, "
+             "Lua, setup.py, types YAML) is reduced to its comment-free token stream and every differing pair, plus a "
+             "sample of identical ones, is walked chunk by chunk by TLC; the set of files must be the same.",
+        note="Trusted: TLC, harness/lexers.py (self-tested at every run), PyYAML round trip of corpus inputs. The "
+             "--outdir string embedded in setup.py is normalised.",
+    ),
 }
 
 ALL = ["C%02d" % i for i in range(1, 19)]
